@@ -123,8 +123,11 @@ func (m *c20mon) step(cx *clusterRun) {
 			arg := fmt.Sprintf("(%p", n.shutM)
 			for _, g := range leakedGoroutines() {
 				if strings.Contains(g, "(*Memberlist).") && strings.Contains(g, arg) && !strings.Contains(g, "zz_verif_cluster_test.go") {
-					if ignoreStreamIO && strings.Contains(g, "zz_verif_simnet_test.go") {
-						continue // blocked in a dial / stream read that is bounded by TCPTimeout (C13's subject)
+					if ignoreStreamIO && (strings.Contains(g, "zz_verif_simnet_test.go") || strings.Contains(g, "(*Memberlist).handleConn(")) {
+						// blocked in a dial / stream read that is bounded by TCPTimeout (C13's subject), or an
+						// inbound stream handler accepted before Shutdown that is between two such reads
+						// (caught by the snapshot while parked at its yield site); re-checked after TCPTimeout
+						continue
 					}
 					m.reported = true
 					cx.c.Violate("background-activity-after-shutdown", "", n.name, "%v after Shutdown returned (allowed: %v) a goroutine of that instance is still alive:\n%s", now-n.shutAt, window, g)
